@@ -23,6 +23,13 @@ func ctxWithDefaultTimeout() (ctx context.Context, cancel context.CancelFunc) {
 func newCtxWithTimeoutCons(timeout time.Duration) (c contextConstructor) {
 	parent := context.Background()
 
+	if timeout == 0 {
+		// Zero means no timeout, see backendConfig.Timeout.
+		return func() (ctx context.Context, cancel context.CancelFunc) {
+			return context.WithCancel(parent)
+		}
+	}
+
 	return func() (ctx context.Context, cancel context.CancelFunc) {
 		return context.WithTimeout(parent, timeout)
 	}
